@@ -146,8 +146,8 @@ func TestC19b(t *testing.T) {
 			var cqe *CQE
 			select {
 			case cqe = <-rec.ch:
-			case <-time.After(6 * time.Second):
-				fail("no completion for the hand-off within 6 s")
+			case <-time.After(30 * time.Second):
+				fail("no completion for the hand-off within 30 s")
 			}
 			select {
 			case extra := <-rec.ch:
@@ -224,9 +224,9 @@ func TestC19b(t *testing.T) {
 		for i := 0; i < k; i++ {
 			select {
 			case <-rec.ch:
-			case <-time.After(8 * time.Second):
+			case <-time.After(30 * time.Second):
 				core.SaveFailure("last", map[string]any{"violation": "burst: completion missing"})
-				rt.Fatalf("VIOLATION C19 only %d of %d hand-offs of a burst were completed within 8 s", i, k)
+				rt.Fatalf("VIOLATION C19 only %d of %d hand-offs of a burst were completed within 30 s", i, k)
 			}
 		}
 		mu.Lock()
